@@ -141,3 +141,60 @@ Proof.
   unfold run_swaps_two_rows_amplify. destruct (row_first (ps_d s) r1) as [c|]; [|intros [= <-]; apply steps_refl].
   apply amplify_walk_steps.
 Qed.
+
+(* ---------- any property of states that every bestSwap keeps is kept by the swap passes ---------- *)
+Section Keeps.
+  Variable J : pstate -> Prop.
+  Hypothesis JB : forall s c cands, J s -> J (pbest s (swap_cands c cands)).
+
+  Lemma fold_best_swap_keeps (g : nat -> nat * list nat) : forall l s, J s ->
+    J (fold_left (fun st i => fst (best_swap st (fst (g i)) (snd (g i)))) l s).
+  Proof. induction l as [|i t IH]; intros s H; cbn [fold_left]; [exact H|]. apply IH. unfold best_swap. cbn [fst]. apply JB, H. Qed.
+
+  Lemma run_swaps_one_row_keeps s row nb s' : run_swaps_one_row s row nb = ROk s' -> J s -> J s'.
+  Proof.
+    unfold run_swaps_one_row. destruct (row_ids (ps_d s) row) as [|x t] eqn:E; [intros [= <-] H; exact H|].
+    destruct (nb <? 0); [discriminate|]. intros [= <-] H.
+    exact (fold_best_swap_keeps (fun i => (nth i (x :: t) O, one_row_cands (x :: t) i (Z.to_nat nb))) (seq 0 (length (x :: t))) s H).
+  Qed.
+
+  Lemma best_swap_update_keeps s c from nb r : best_swap_update s c from nb = ROk r -> J s -> J (bs_state r).
+  Proof.
+    unfold best_swap_update. destruct (bsu_cands (ps_d s) from (Z.to_nat nb)) as [cands|]; [|discriminate].
+    destruct (retained s (swap_cands c cands)) as [[c1 c2| | |]|]; intros [= <-] H; cbn [bs_state]; apply JB, H.
+  Qed.
+
+  Lemma run_while_keeps s c from nb s' c' from' : run_while s c from nb = ROk (s', c', from') -> J s -> J s'.
+  Proof.
+    unfold run_while. intros R H.
+    pose proof (loop_pos_inv (fun st : pstate * nat * option nat => J (fst (fst st)))
+                  (fun r => match r with ROk st => J (fst (fst st)) | RErr _ => True end) (while_body nb)) as L.
+    assert (Hb : forall st, J (fst (fst st)) ->
+       match while_body nb st with
+       | LContinue st' => J (fst (fst st'))
+       | LDone r => match r with ROk st' => J (fst (fst st')) | RErr _ => True end
+       end).
+    { intros [[s0 c0] f0] H0. cbn [fst] in H0. unfold while_body.
+      destruct (best_swap_update s0 c0 f0 nb) as [r|e] eqn:E; [|exact I].
+      pose proof (best_swap_update_keeps s0 c0 f0 nb r E H0) as S1. destruct (bs_found r); cbn [fst]; exact S1. }
+    specialize (L Hb (while_fuel s) (s, c, from) H).
+    destruct (loop_pos (while_fuel s) (while_body nb) (s, c, from)) as [st|r]; [discriminate|]. subst r. exact L.
+  Qed.
+
+  Lemma amplify_walk_keeps nb : forall fuel s c from s', amplify_walk fuel s c from nb = ROk s' -> J s -> J s'.
+  Proof.
+    induction fuel as [|fuel IH]; intros s c from s'; cbn [amplify_walk]; [discriminate|].
+    destruct (run_while s c from nb) as [[[s1 c1] f1]|e] eqn:W; [|discriminate]. intros R H.
+    pose proof (run_while_keeps s c from nb s1 c1 f1 W H) as S1. revert R.
+    destruct (find_cell_after (ps_d s1) c1 f1) as [f2|]; [|discriminate].
+    destruct (cell_next (ps_d s1) c1) as [[c2|]|]; [| |discriminate].
+    - intros R. exact (IH s1 c2 f2 s' R S1).
+    - intros [= <-]. exact S1.
+  Qed.
+
+  Lemma amplify_keeps s r1 r2 nb s' : run_swaps_two_rows_amplify s r1 r2 nb = ROk s' -> J s -> J s'.
+  Proof.
+    unfold run_swaps_two_rows_amplify. destruct (row_first (ps_d s) r1) as [c|]; [|intros [= <-] H; exact H].
+    apply amplify_walk_keeps.
+  Qed.
+End Keeps.
